@@ -1,6 +1,6 @@
 SPECIFICATION Spec
 CONSTANTS
-  Docs0 <- DocsBigFloats
+  Docs0 <- DocsFloatTexts
   CopyModes = {TRUE}
   MaxOps = 1
   SetOps <- SetOpsNull
